@@ -612,6 +612,42 @@ fn rollback(state: &mut ApplyState) -> Result<()> {
 
 /// Apply a renaming plan
 #[allow(clippy::too_many_lines)]
+/// Both paths name the same directory entry (a case-only rename on a case-insensitive
+/// filesystem). Resolving to the same file is not enough: a symlink or hard link to the source
+/// does that too, and is an occupant of its own that the rename would replace. So the directory
+/// must not list the new name as an entry of its own.
+fn names_same_dir_entry(path: &Path, new_path: &Path) -> bool {
+    if path == new_path {
+        return true;
+    }
+    let same_target = matches!(
+        (fs::canonicalize(path), fs::canonicalize(new_path)),
+        (Ok(a), Ok(b)) if a == b
+    );
+    if !same_target {
+        return false;
+    }
+    match (path.file_name(), new_path.file_name()) {
+        // Same last component: the difference is in a parent directory's name
+        (Some(a), Some(b)) if a == b => match (path.parent(), new_path.parent()) {
+            (Some(pa), Some(pb)) => names_same_dir_entry(pa, pb),
+            _ => false,
+        },
+        (Some(_), Some(new_name)) => {
+            let parent = match new_path.parent() {
+                Some(p) if !p.as_os_str().is_empty() => p,
+                _ => Path::new("."),
+            };
+            fs::read_dir(parent).is_ok_and(|entries| {
+                !entries
+                    .flatten()
+                    .any(|entry| entry.file_name().as_os_str() == new_name)
+            })
+        },
+        _ => false,
+    }
+}
+
 pub fn apply_plan(plan: &mut Plan, options: &ApplyOptions) -> Result<()> {
     // Refuse a plan whose id is already recorded BEFORE anything is changed: `add_entry` at the
     // end of this function would reject it anyway, but only after the tree has been edited.
@@ -644,11 +680,7 @@ pub fn apply_plan(plan: &mut Plan, options: &ApplyOptions) -> Result<()> {
         }
         let case_only = rename.path.to_string_lossy().to_lowercase()
             == rename.new_path.to_string_lossy().to_lowercase();
-        let same_file = case_only
-            && matches!(
-                (fs::canonicalize(&rename.path), fs::canonicalize(&rename.new_path)),
-                (Ok(a), Ok(b)) if a == b
-            );
+        let same_file = case_only && names_same_dir_entry(&rename.path, &rename.new_path);
         if !same_file && fs::symlink_metadata(&rename.new_path).is_ok() {
             return Err(anyhow!(
                 "Refusing to rename {} to {}: destination already exists",
